@@ -480,6 +480,42 @@ fn gen_lerp(r: &mut Rng, n: usize, out: &mut dyn Write, exhaustive8: bool) {
             writeln!(out, "lerp64 {} {} {}", fa.to_bits(), fc.to_bits(), b(x)).unwrap();
         }
         if r.chance(1, 4) {
+            // Quat / DQuat: normalised linear interpolation the short way round (delegated to glam)
+            let mut q = |r: &mut Rng| -> [f64; 4] {
+                let mut v = [0f64; 4];
+                match r.below(8) {
+                    0 => { v[r.below(4) as usize] = if r.chance(1, 2) { 1.0 } else { -1.0 }; }
+                    _ => {
+                        for c in v.iter_mut() { *c = r.unit_f32() as f64 - 0.5; }
+                        if r.chance(1, 5) { v[r.below(4) as usize] = 0.0; }
+                        let n = v.iter().map(|c| c * c).sum::<f64>().sqrt();
+                        if n > 1e-3 { for c in v.iter_mut() { *c /= n; } } else { v = [0.0, 0.0, 0.0, 1.0]; }
+                        if r.chance(1, 8) { let k = 10f64.powi(r.below(13) as i32 - 6); for c in v.iter_mut() { *c *= k; } }
+                    }
+                }
+                v
+            };
+            let a = q(r);
+            let c = match r.below(8) {
+                0 => a,
+                1 => [-a[0], -a[1], -a[2], -a[3]],
+                2 => [-a[1], a[0], -a[3], a[2]],          // orthogonal: the dot product is ±0
+                3 => { let mut c = a; c[r.below(4) as usize] += 1e-3; c }
+                _ => q(r),
+            };
+            let x = match r.below(6) { 0 => 0.0, 1 => 1.0, 2 => 0.5, 3 => r.below(1025) as f32 / 1024.0, 4 => x, _ => r.unit_f32() };
+            if r.chance(1, 2) {
+                let t = |v: &[f64; 4]| v.iter().map(|c| b(*c as f32)).collect::<Vec<_>>().join(" ");
+                writeln!(out, "quat {} {} {}", t(&a), t(&c), b(x)).unwrap();
+            } else {
+                // half of the doubles are exact f32 values, half use the full 53 bits
+                let full = r.chance(1, 2);
+                let t = |v: &[f64; 4]| v.iter().map(|c| (if full { *c } else { *c as f32 as f64 }).to_bits().to_string()).collect::<Vec<_>>().join(" ");
+                writeln!(out, "dquat {} {} {}", t(&a), t(&c), b(x)).unwrap();
+            }
+            writeln!(out, "# quatspec C14 1").unwrap();
+        }
+        if r.chance(1, 4) {
             let vecs = [("Vec2", "f32", 2), ("Vec3", "f32", 3), ("Vec3A", "f32", 3), ("Vec4", "f32", 4), ("DVec2", "f64", 2), ("DVec3", "f64", 3),
                 ("DVec4", "f64", 4), ("IVec2", "i32", 2), ("IVec3", "i32", 3), ("IVec4", "i32", 4), ("UVec2", "u32", 2), ("UVec3", "u32", 3),
                 ("UVec4", "u32", 4), ("I64Vec2", "i64", 2), ("I64Vec3", "i64", 3), ("I64Vec4", "i64", 4), ("U64Vec2", "u64", 2),
